@@ -200,10 +200,10 @@ Proof.
   { cbn. repeat constructor; cbn; intuition discriminate. }
   assert (Hsub : forall j, In j (map fst ex_parties) -> In j [1%N; 2%N; 3%N]) by (cbn; tauto).
   assert (Hg : forall p, In p ex_parties -> gennaro_deal 2 (snd p) <> None).
-  { intros p [<-|[<-|[<-|[]]]]; cbn; discriminate. }
+  { intros p [<-|[<-|[<-|[]]]]; vm_compute; discriminate. }
   split; [exact ZpS_7_flaws|]. split; [intro h; repeat constructor|].
   split; [exact Hnd|]. split; [exact Hsub|]. split; [exact Hg|].
-  split; [intros p [<-|[<-|[<-|[]]]]; cbn; discriminate|].
+  split; [intros p [<-|[<-|[<-|[]]]]; vm_compute; discriminate|].
   split; [apply (gennaro_completes K7 ZpS_7_flaws); [exact Hnd|exact Hsub|exact Hg|cbn; tauto]|].
-  split; [vm_compute; reflexivity|]. split; [vm_compute; reflexivity|]. cbn. discriminate.
+  split; [vm_compute; reflexivity|]. split; [vm_compute; reflexivity|]. vm_compute. discriminate.
 Qed.
